@@ -11,18 +11,19 @@ import subprocess, os
 from vlib import runner
 ID = "C02"
 MODULE = "PotasscoVerif.Props.C02"
-EXTRA_MODULES = ["PotasscoVerif.Props.C02sem", "PotasscoVerif.Lemmas.AspEnum", "PotasscoVerif.Props.C02x", "PotasscoVerif.Lemmas.ConvertExt", "PotasscoVerif.Props.C02m", "PotasscoVerif.Lemmas.ConvertSteps"]
+EXTRA_MODULES = ["PotasscoVerif.Props.C02sem", "PotasscoVerif.Lemmas.AspEnum", "PotasscoVerif.Props.C02x", "PotasscoVerif.Lemmas.ConvertExt", "PotasscoVerif.Props.C02m", "PotasscoVerif.Lemmas.ConvertSteps", "PotasscoVerif.Lemmas.ConvertStepsExt"]
 THEOREMS = ["PotasscoVerif.C02.C02_stable_models", "PotasscoVerif.C02.C02_equivalence", "PotasscoVerif.C02.C02_cost", "PotasscoVerif.C02.C02_compute_false",
             "PotasscoVerif.Asp.translation_stable", "PotasscoVerif.Asp.translation_stable_back", "PotasscoVerif.Asp.stableB_iff", "PotasscoVerif.Asp.stableModels_complete", "PotasscoVerif.Asp.stableModels_sound",
             "PotasscoVerif.C02.C02_map_injective", "PotasscoVerif.C02.C02_map_stable", "PotasscoVerif.C02.C02_aux_fresh", "PotasscoVerif.C02.convert_steps",
             "PotasscoVerif.C02.C02_minimize_flip", "PotasscoVerif.C02.C02_minimize_sorted", "PotasscoVerif.C02.flushMinimize_order",
             "PotasscoVerif.C02.C02_externals_passed", "PotasscoVerif.C02.C02_stable_models_ext", "PotasscoVerif.C02.C02_equivalence_ext", "PotasscoVerif.C02.C02_cost_ext",
             "PotasscoVerif.C02.extRules_out", "PotasscoVerif.C02.flushExternal_specT",
-            "PotasscoVerif.C02.steps_JX", "PotasscoVerif.C02.C02_steps_translation", "PotasscoVerif.C02.C02_steps_stable_models", "PotasscoVerif.C02.C02_steps_externals"]
-PARTIAL = {"several steps with external directives": "C02_steps_stable_models: for incremental programs of ANY number of steps without external directives (extension on or off) the rules given so far and the rules "
-           "emitted so far have the same answer sets, one to one under ONE atom map (C02_steps_translation, also with the extension on and any externals: the rule part). With external directives AND several steps "
-           "the declarative reading of the externals across steps (which step's value counts for an atom declared in several steps, an atom defined in a later step) is not fixed by `progOf`; there the "
-           "external calls emitted over all steps are proved to be the pending externals of each step with image and last value (C02_steps_externals), the one-step meaning by C02_stable_models_ext, and the answer sets by model == implementation; shown names and costs are proved per step"}
+            "PotasscoVerif.C02.steps_JX", "PotasscoVerif.C02.C02_steps_translation", "PotasscoVerif.C02.C02_steps_stable_models", "PotasscoVerif.C02.C02_steps_externals",
+            "PotasscoVerif.C02.C02_steps_stable_models_ext", "PotasscoVerif.C02.extRules_out_steps", "PotasscoVerif.C02.stepRegs_last"]
+PARTIAL = {"several steps with external directives, extension OFF": "proved for several steps: C02_steps_stable_models (no external directives, extension on or off) and C02_steps_stable_models_ext (ANY external "
+           "directives, extension on: the directives of all steps read together — an external on an atom no rule of any step defines, the last directive over all steps counts — against the external calls emitted "
+           "over all steps). Without the extension the externals of each step are compiled into rules at the end of that step and cannot be taken back in a later step: what such a program means over several "
+           "steps is not a property of the converter; there the check compares model == implementation and the atom map only; shown names and costs are proved per step"}
 BSIZES = (4096,)
 LPCONVERT = True
 RULE = ("programs of 1..8 directives over 2..6 atoms: disjunctive/choice heads incl. empty, normal and weight bodies (bounds < 0, 0, reachable, unreachable; weights 0/1/mixed), "
@@ -45,7 +46,7 @@ LEVEL_TEXT = ("Reference semantics Spec/Asp.lean (stable models with disjunctive
               "rule); C02_stable_models_ext / C02_equivalence_ext / C02_cost_ext: answer sets, shown names and costs correspond as above for EVERY step with ANY external directives converted with the extension on. "
               "Several steps (Lemmas/ConvertSteps.lean, Props/C02m.lean): the invariants J and XI are carried from step to step (step_JX, steps_JX: the flags of atoms survive the end of a step, the pending lists are emptied); "
               "C02_steps_translation: after ANY number of steps all emitted rules are a translation of all given rules under one atom map and one table of auxiliary atoms (no external directives, or extension on); "
-              "C02_steps_stable_models: hence for incremental programs without external directives the cumulative answer sets correspond one to one; C02_steps_externals: with the extension on, the external calls of ALL steps are, step after step, the atoms declared external while no rule so far had defined them, with image under the final map and last value of that step. The check's answer-set oracle now also runs on such multi-step programs.")
+              "C02_steps_stable_models: hence for incremental programs without external directives the cumulative answer sets correspond one to one; C02_steps_stable_models_ext (Lemmas/ConvertStepsExt.lean): with the extension on and ANY external directives in any steps, the external directives of all steps read together and the external calls emitted over all steps denote renamed rules of one another (extRules_out_steps, stepRegs_last: the last pending entry of an atom carries the value of its last directive over all steps), so the cumulative answer sets correspond; C02_steps_externals: with the extension on, the external calls of ALL steps are, step after step, the atoms declared external while no rule so far had defined them, with image under the final map and last value of that step. The check's answer-set oracle now also runs on such multi-step programs.")
 LEVEL_NOTE = ("Proof of the single-step equivalence (answer sets, shown names, cost; externals compiled away AND passed on with the extension); several steps without externals; partial for several steps WITH externals + correspondence (~4k quick / 100k thorough programs × ext on/off, sample through lpconvert) + answer-set oracle on small programs. Trusted: Lean kernel+axioms, "
               "asp_sem.py, harness, generator in props/c02.py. D9 (INT_MIN minimize weight) repaired.")
 
@@ -173,7 +174,8 @@ def check_steps(c, emitted_words, amap):
         for s in st:
             if s[0] == "R": orig["rules"].append((s[1], s[2], ("n", s[3])))
             elif s[0] == "S": orig["rules"].append((s[1], s[2], ("s", s[3], [tuple(x) for x in s[4]])))
-    conv = parse_words([w for w in emitted_words if w[0] in "RSA"])
+            elif s[0] == "X": orig["externals"][s[1]] = s[2]         # the last directive over all steps counts (extension on: C02_steps_stable_models_ext)
+    conv = parse_words([w for w in emitted_words if w[0] in "RSAX"])
     oa = sorted(asp_sem.atoms_of(orig)); ca = sorted(asp_sem.atoms_of(conv))
     if len(oa) > 6 or len(ca) > 8: return None
     if len(set(amap.values())) != len(amap): return ("C02:atom-map", "the atom map is not injective after several steps", {"map": amap})
@@ -236,7 +238,7 @@ def evaluate(ctx, cases):
                     if v is None: ctx.dist["too-large-for-oracle"] += 1
                     elif v == "ok": ctx.dist["oracle-ok"] += 1
                     else: ctx.fail(v[0], v[1], jc, dict(v[2], emitted=" ".join(emitted)[:500]))
-            elif not any(s[0] == "X" for st in c["steps"] for s in st):
+            elif c["ext"] or not any(s[0] == "X" for st in c["steps"] for s in st):
                 # several steps without external directives (C02_steps_stable_models): the rules given so far and the rules emitted so far have the same answer sets
                 v = check_steps(c, emitted, amap)
                 if v is None: ctx.dist["too-large-for-oracle"] += 1
